@@ -285,7 +285,7 @@ func IsNilConst(v ssa.Value) bool {
 
 // NamedType returns "pkgpath.Name" of a (pointer to) named type, or "".
 func NamedType(t types.Type) string {
-	t = deref(t)
+	t = types.Unalias(deref(types.Unalias(t)))
 	if n, ok := t.(*types.Named); ok {
 		if n.Obj().Pkg() != nil {
 			return n.Obj().Pkg().Path() + "." + n.Obj().Name()
